@@ -2,7 +2,7 @@ SPECIFICATION Spec
 CONSTANTS
   NB = 1
   Keys = {1, 2}
-  Vals = {1, 2}
+  Vals = {1, 2, 3}
   KLen <- MC_KLen
   VLen <- MC_VLen
   KH <- MC_KH
